@@ -319,6 +319,8 @@ def finish_e1(prop, tier, seed, tasks, results, known, t0, extra_cov=None, extra
                     r["ablation"] = {"finding": e["id"], "enabled": rest, "status": r2["status"]}
                     if r2["status"] == "violation":
                         hit = next((k for k in known if kf.match_input(k, r2.get("source", t["text"]), rest, r2.get("result", ""))), None)
+                        if hit is None:
+                            continue  # not this finding: try the remaining program-identified ones
                     else:
                         hit = e
                     break
